@@ -102,6 +102,8 @@ Crash == /\ prog # <<>> /\ crashes < MaxCrashes /\ crashes' = crashes + 1
 Next == Load \/ Act \/ Step \/ Crash
 Spec == Init /\ [][Next]_vars
 FairSpec == Spec /\ WF_vars(Load) /\ WF_vars(Act) /\ WF_vars(Step)
+(* everything but the crash counter (see Persist!NoCrashCount) *)
+NoCrashCount == <<dir, cfg, meta, metaVal, key, edb, tmp, tmpVal, mem, sst, prog, pc, phase>>
 Usable == phase \notin {"unusable", "stuck"}
 MetaNeverTorn == Fixed => meta \in {"absent", "full"}
 Reaches == <>(phase = "done")
